@@ -1417,8 +1417,14 @@ TableWorld.global_name = _tw_global_dict
 # ---- add_metadata (C18): exactly the named ids and keys ----------------------------------------------------------------
 # Per-id metadata is a tuple of dicts held by value ('TupD'): sound because after the cast to defaultdicts the entries
 # of a table's metadata are pairwise distinct objects.
+ASSUMED['metadata-by-value'] = ('per-id metadata is modelled as a tuple of dicts held by value; this is the behaviour of the real '
+                                'tuple of dict objects as long as its entries are pairwise distinct objects, which '
+                                'Table._cast_metadata establishes (every entry becomes a fresh defaultdict)')
+
+
 def _tw_make_object_md(self, eng, st, name, cls):
     if cls == 'TableMD':
+        self.used.add('metadata-by-value')
         ref = _prev_make_object_md(self, eng, st, name, 'Table')
         n = st.node(ref)
         f = dict(n.fields)
@@ -1556,9 +1562,7 @@ contract(F, 'Table.add_metadata', tier='A', props=['C18'],
     ] + [_add_md_inv(ax, M, IDS) for ax, M, IDS in (('sample', 'self._sample_metadata', 'self._sample_ids'),
                                                      ('observation', 'self._observation_metadata', 'self._observation_ids'))])})
 
-ASSUMED['metadata-by-value'] = ('per-id metadata is modelled as a tuple of dicts held by value; this is the behaviour of the real '
-                                'tuple of dict objects as long as its entries are pairwise distinct objects, which '
-                                'Table._cast_metadata establishes (every entry becomes a fresh defaultdict)')
+
 
 
 # ---- del_metadata (C18): exactly the named keys, on the chosen axes ---------------------------------------------------
